@@ -760,6 +760,25 @@ pub fn worker_main() {
     crate::pool::serve(|pv| {
         let seed = pv["seed"].as_u64().unwrap_or(1);
         move |task: &Value| -> Value {
+            if let Some(k) = task["occupied"].as_u64() {
+                let via = match task["via"].as_str().unwrap_or("flag") {
+                    "env" => Via::Env,
+                    "flag-comma-list" => Via::FlagComma,
+                    _ => Via::Flag,
+                };
+                let r = std::panic::catch_unwind(std::panic::AssertUnwindSafe(|| occupied_address_session(k as usize, via)));
+                return match r {
+                    Ok((f, n)) => json!({"requests": n, "findings": f.iter().map(|(c, m)| json!({"class": c, "msg": m})).collect::<Vec<_>>()}),
+                    Err(e) => json!({"error": format!("bin worker panicked: {}", crate::sut::panic_msg(e))}),
+                };
+            }
+            if let Some(route) = task["ack_kill"].as_str() {
+                let r = std::panic::catch_unwind(std::panic::AssertUnwindSafe(|| ack_kill_session(seed, route)));
+                return match r {
+                    Ok((f, n)) => json!({"requests": n, "findings": f.iter().map(|(c, m)| json!({"class": c, "msg": m})).collect::<Vec<_>>()}),
+                    Err(e) => json!({"error": format!("bin worker panicked: {}", crate::sut::panic_msg(e))}),
+                };
+            }
             if task["wire"].as_bool().unwrap_or(false) {
                 let r = std::panic::catch_unwind(std::panic::AssertUnwindSafe(|| wire_session(seed)));
                 return match r {
@@ -775,6 +794,161 @@ pub fn worker_main() {
             }
         }
     });
+}
+
+// ---------------------------------------------------------------------------------------------
+// every listen address, or none (C17)
+
+/// Three listen addresses of which one is taken by somebody else when the server starts. It
+/// cannot serve on every address given; what it must not do is come up all the same on the
+/// others and leave the operator believing the configured address is served.
+pub fn occupied_address_session(which: usize, via: Via) -> (Vec<(String, String)>, u64) {
+    let mut findings = vec![];
+    let scratch = Scratch::new("occupied");
+    let dir = scratch.path().join("data");
+    let addrs: Vec<String> = (0..3).map(|_| format!("127.0.0.1:{}", free_port(false))).collect();
+    // somebody else listens on one of them (and never answers)
+    let Ok(_squatter) = TcpListener::bind(&addrs[which]) else {
+        return (vec![("machinery".into(), "could not occupy the port".into())], 0);
+    };
+    let l = Launch { listen: vec!["v4".into(), "v4".into(), "v4".into()], listen_via: via, data_via: Via::Flag, allow: 0, allow_via: Via::Flag, versions: None, versions_via: Via::Flag, days: None, days_via: Via::Flag, log: false };
+    let mut cmd = Command::new(server_binary());
+    cmd.env_clear();
+    cmd.env("PATH", std::env::var("PATH").unwrap_or_default());
+    cmd.stdin(Stdio::null()).stdout(Stdio::null()).stderr(Stdio::null());
+    std::fs::create_dir_all(&dir).ok();
+    cmd.current_dir(dir.parent().unwrap());
+    match l.listen_via {
+        Via::Flag => {
+            for a in &addrs {
+                cmd.arg("--listen").arg(a);
+            }
+        }
+        Via::FlagComma => {
+            cmd.arg("--listen").arg(addrs.join(","));
+        }
+        Via::Env => {
+            cmd.env("LISTEN", addrs.join(","));
+        }
+    }
+    cmd.arg("--data-dir").arg(&dir);
+    let mut child = match cmd.spawn() {
+        Ok(c) => c,
+        Err(e) => return (vec![("machinery".into(), format!("cannot start the server: {e}"))], 0),
+    };
+    let mut nreq = 0u64;
+    let t0 = Instant::now();
+    let mut served_elsewhere: Option<String> = None;
+    let mut exited = false;
+    while t0.elapsed() < Duration::from_millis(2500) {
+        if let Ok(Some(_)) = child.try_wait() {
+            exited = true;
+            break;
+        }
+        for (k, a) in addrs.iter().enumerate() {
+            if k != which {
+                nreq += 1;
+                if let Ok(r) = http_raw(a, "GET", "/", &[], None, false) {
+                    if r.status == 200 {
+                        served_elsewhere = Some(a.clone());
+                    }
+                }
+            }
+        }
+        if served_elsewhere.is_some() {
+            break;
+        }
+        std::thread::sleep(Duration::from_millis(30));
+    }
+    let _ = child.kill();
+    let _ = child.wait();
+    if !exited {
+        if let Some(a) = served_elsewhere {
+            findings.push(("partial-listen".into(), format!("listen addresses {:?} configured, {} is taken by another program: the server started anyway and serves on {a} only - not on every address given, and without saying so", addrs, addrs[which])));
+        }
+    }
+    (findings, nreq)
+}
+
+// ---------------------------------------------------------------------------------------------
+// acknowledged means committed (C04), in real time through the executable
+
+/// An upload that has to wait for the database (another connection holds the write lock for
+/// three real seconds) and a kill the moment it is acknowledged: after the restart it must be
+/// there. A server that answers before its storage has committed - a timer, a background task -
+/// acknowledges while the lock is still held, and loses the upload in the kill.
+pub fn ack_kill_session(seed: u64, route: &str) -> (Vec<(String, String)>, u64) {
+    let mut findings: Vec<(String, String)> = vec![];
+    let mut nreq = 0u64;
+    let scratch = Scratch::new("ackkill");
+    let dir = scratch.path().join("data");
+    let mut run = match start_plain(&dir) {
+        Ok(r) => r,
+        Err(e) => return (vec![("machinery".into(), format!("the server does not start: {e}"))], 0),
+    };
+    let addr = run.addrs[0].clone();
+    let c = det_uuid(seed, 41, 1);
+    nreq += 1;
+    let v1 = match http(&addr, "POST", &format!("/v1/client/add-version/{}", Uuid::nil()), &[("X-Client-Id", c.to_string()), ("Content-Type", HS_CT.to_string())], Some(b"first"), false) {
+        Ok(r) if r.status == 200 => r.header_str("X-Version-Id").and_then(|s| Uuid::parse_str(&s).ok()).unwrap_or_default(),
+        other => return (vec![("machinery".into(), format!("setup request failed: {:?}", other.map(|r| r.status)))], nreq),
+    };
+    let holder = match rusqlite::Connection::open(dir.join(DB_FILE)) {
+        Ok(h) => h,
+        Err(e) => return (vec![("machinery".into(), format!("cannot open the database from outside: {e}"))], nreq),
+    };
+    holder.busy_timeout(Duration::from_secs(10)).ok();
+    if let Err(e) = holder.execute_batch("BEGIN IMMEDIATE") {
+        return (vec![("machinery".into(), format!("cannot take the write lock from outside: {e}"))], nreq);
+    }
+    let payload: Vec<u8> = format!("uploaded while the database was busy ({route})").into_bytes();
+    let (path, ct) = if route == "add-snapshot" { (format!("/v1/client/add-snapshot/{v1}"), SNAP_CT) } else { (format!("/v1/client/add-version/{v1}"), HS_CT) };
+    let (a2, p2, b2) = (addr.clone(), path.clone(), payload.clone());
+    nreq += 1;
+    let h = std::thread::spawn(move || http(&a2, "POST", &p2, &[("X-Client-Id", c.to_string()), ("Content-Type", ct.to_string())], Some(&b2), false));
+    let t0 = Instant::now();
+    while t0.elapsed() < Duration::from_millis(3000) && !h.is_finished() {
+        std::thread::sleep(Duration::from_millis(20));
+    }
+    let early = h.is_finished();
+    if !early {
+        let _ = holder.execute_batch("COMMIT");
+    }
+    let ans = h.join().unwrap_or_else(|_| Err("request thread panicked".into()));
+    // the moment the answer is here: kill
+    unsafe {
+        libc::kill(run.child.id() as i32, libc::SIGKILL);
+    }
+    let _ = run.child.wait();
+    drop(run);
+    drop(holder);
+    let acknowledged = matches!(&ans, Ok(r) if r.status == 200);
+    match &ans {
+        Ok(r) if r.status == 200 || r.status >= 500 => {}
+        Ok(r) => findings.push(("machinery".into(), format!("{route} while the database was busy answered {}", r.status))),
+        Err(e) => findings.push(("machinery".into(), format!("{route} while the database was busy: {e}"))),
+    }
+    let run2 = match start_plain(&dir) {
+        Ok(r) => r,
+        Err(e) => {
+            findings.push(("does-not-restart".into(), format!("after the kill the server does not come up on the same directory: {e}")));
+            return (findings, nreq);
+        }
+    };
+    nreq += 1;
+    let back = if route == "add-snapshot" {
+        http(&run2.addrs[0], "GET", "/v1/client/snapshot", &[("X-Client-Id", c.to_string())], None, false)
+    } else {
+        http(&run2.addrs[0], "GET", &format!("/v1/client/get-child-version/{v1}"), &[("X-Client-Id", c.to_string())], None, false)
+    };
+    let present = matches!(&back, Ok(r) if r.status == 200 && r.body == payload);
+    if acknowledged && !present {
+        findings.push((format!("acknowledged-before-commit|{route}"), format!("{route} was acknowledged with 200 {} and the server killed at once; after the restart the upload is not there ({})", if early { "while another connection still held the write lock" } else { "right after the write lock became free" }, match &back { Ok(r) => format!("read-back answered {}", r.status), Err(e) => e.clone() })));
+    }
+    if early && acknowledged {
+        findings.push((format!("acknowledged-while-locked|{route}"), format!("{route} was acknowledged with 200 while another connection held the database's write lock: nothing can have been committed yet")));
+    }
+    (findings, nreq)
 }
 
 // ---------------------------------------------------------------------------------------------
